@@ -278,6 +278,10 @@ def _r3(model, res):
                 if isinstance(v, Atom):
                     if v.op == 'hex' and len(v.args) == 1:
                         found.append(v.args[0])
+                    elif v.op == 'format' and len(v.args) == 2 and isinstance(v.args[0], Const) and v.args[0].value in ('%X', '%x'):
+                        found.append(v.args[1])        # '%X' % n: the hexadecimal digits of n as well
+                    elif v.op == 'format' and len(v.args) == 2 and isinstance(v.args[1], Const) and v.args[1].value in ('X', 'x'):
+                        found.append(v.args[0])        # format(n, 'X')
                     for a in v.args:
                         go(a)
             go(o.value)
